@@ -1,9 +1,19 @@
 import BronVerif.Drive.Common
-/-! Driver handlers for C14. -/
+import BronVerif.Model.Curves
+/-! Driver handlers for C14 (curve, field and pairing arithmetic). -/
 namespace BronVerif.Drive.C14
-open BronVerif BronVerif.Drive
+open BronVerif BronVerif.Drive BronVerif.Curves
 
-def handle (op : String) (_args : List String) (_rhs : String) : Verdict :=
-  .unsupported ("C14 op " ++ op)
+def handle (op : String) (args : List String) (rhs : String) : Verdict :=
+  match op, args with
+  | "gen", [cn] =>
+    match byName? cn with
+    | some C => spec "generator" (render C (gen C)) rhs
+    | none => .unsupported ("curve " ++ cn)
+  | "zero", [cn] =>
+    match byName? cn with
+    | some C => spec "identity" (render C (zero C)) rhs
+    | none => .unsupported ("curve " ++ cn)
+  | _, _ => .unsupported ("C14 op " ++ op)
 
 end BronVerif.Drive.C14
